@@ -69,6 +69,6 @@ p = os.path.join(HERE, "DESIGN.md")
 s = open(p).read()
 a = s.index("## 11. Which check catches which change")
 b = s.index("## Appendix A")
-s = s[:a] + "## 11. Which check catches which change  **[as built]**\n\nIndependently written changes (each by a fresh sub-agent that saw only the property text and a scratch worktree; kept only after `tools/confirm_seeded.sh` confirmed: compiles, the 166-test suite passes with it, its demonstration fails with it and passes without). Detection = `tools/seeded_eval.py` (patch applied to /repo, quick tier, default seed, /repo reverted).\n\n" + table + "\n\n" + own_txt + "\n" + s[b:]
+s = s[:a] + "## 11. Which check catches which change  **[as built]**\n\n126 independently written changes in four rounds (each by a fresh sub-agent that saw only the property text - from the second round on also one-line descriptions of the earlier changes of that property, to be avoided - and a scratch worktree; kept only after `tools/confirm_seeded.sh` confirmed: compiles, the 166-test suite passes with it, its demonstration fails with it and passes without). Detection = `tools/seeded_eval.py` (patch applied to /repo, quick tier, default seed, /repo reverted) with the checks as they are now; what was missed when each batch first came back, and what that led to, is in the four tables after the matrix. Summary: 125 of the 126 are caught by the check of their own property; one (C10-R4A) needs a stand-in Bitcoin node and is caught by nothing.\n\n" + table + "\n\n" + own_txt + "\n" + s[b:]
 open(p, "w").write(s)
 print("matrix rows:", len(rows))
